@@ -30,7 +30,7 @@ U.inline_and_then = True   # R13
 U.inline_mod_uses = '#[allow(unused_imports)] use crate::index::context::*;\n#[allow(unused_imports)] use crate::index::scope::*;\n'
 U.delete_stmt_macros = {'tracing::debug', 'tracing::info', 'tracing::warn', 'tracing::error', 'tracing::trace'}
 U.macro_replacements = {'format': 'crate::vprelude::opaque_string()', 'eco_format': 'crate::vprelude::opaque_eco_string()'}
-U.kind_tags = {'assert': 'C03', 'panic': 'C03', 'overflow': 'C03', 'bounds': 'C03'}
+U.kind_tags = {'assert': 'C03', 'panic': 'C03', 'overflow': 'C03', 'bounds': 'C03', 'precondition': 'C03'}   # unmarked = preconditions of std / assumed dependency functions (index bounds, unwrap, expect): panic sites
 
 I = 'index.rs'
 CTX = 'index/context.rs'
